@@ -520,6 +520,7 @@ func (w *ssWorld) connect(o ssConnectOpts) bool {
 }
 
 func runC15(c *harness.Ctx) {
+	maybeYields(c)
 	t := c.T
 	w := newSSWorld(c)
 	defer simos.Deactivate()
